@@ -148,6 +148,22 @@ func VerifC13_BuildJoin() {
 	zzverif.Reach("build-join")
 }
 
+// JOIN type made of a valid first word followed by more text: the whole string
+// is what ends up in the statement, so the whole string must be one of the
+// four join types.
+func VerifC13_BuildJoinTail() {
+	first := []string{"INNER", "left", "Right", "FULL"}[zzverif.Choice("first", 4)]
+	tail := zzverif.StringFrom("tail", 3, " J\"a;-1")
+	jt := first + tail
+	q, _, err := NewORM(nil, "t").NewQueryBuilder().Select("*").Join(jt, "o", "a", "b").Build()
+	if err == nil {
+		ujt := zzUpperTrim(jt)
+		zzverif.Assert(zzIn(ujt, []string{"INNER", "LEFT", "RIGHT", "FULL"}), "build-accepts-join-type-outside-allow-list")
+		zzverif.Assert(q == `SELECT * FROM "t" `+ujt+` JOIN "o" ON "t"."a" = "o"."b"`, "build-join-sql-is-not-the-fixed-template")
+	}
+	zzverif.Reach("build-join-tail")
+}
+
 // ORDER BY column/direction: whatever Build makes of the two strings, the
 // clause must be ` ORDER BY "<safe identifier>" ASC|DESC`.
 func VerifC13_BuildOrder() {
